@@ -83,9 +83,16 @@ def _always_returns(stmts: List[ast.stmt]) -> bool:
 def _classify(h: Helper):
     n = h.node
     a = n.args
-    if a.vararg or a.kwarg or a.posonlyargs:
+    if a.kwarg or a.posonlyargs:
         h.reason = "star/positional-only parameters"
         return
+    if a.vararg:
+        # *args is supported when it is only ever passed on as `f(..., *args)`
+        va = a.vararg.arg
+        inside = {id(x.value) for c in ast.walk(n) if isinstance(c, ast.Call) for x in c.args if isinstance(x, ast.Starred) and isinstance(x.value, ast.Name) and x.value.id == va}
+        if any(isinstance(x, ast.Name) and x.id == va and id(x) not in inside for x in ast.walk(n)):
+            h.reason = "star parameter used other than as f(*args)"
+            return
     decos = {_deco(d) for d in n.decorator_list}
     if decos - {"staticmethod", "classmethod", "njit", "jit"}:
         h.reason = f"decorators {sorted(decos)}"
@@ -194,6 +201,23 @@ def _returns_to(stmts: List[ast.stmt], make) -> List[ast.stmt]:
     return out
 
 
+class _SplatArgs(ast.NodeTransformer):
+    """`f(x, *args)` inside a helper whose *args were given as concrete expressions at the call: spell them out."""
+    def __init__(self, name: str, exprs: List[ast.AST]):
+        self.name, self.exprs = name, exprs
+
+    def visit_Call(self, node: ast.Call):
+        self.generic_visit(node)
+        new = []
+        for a in node.args:
+            if isinstance(a, ast.Starred) and isinstance(a.value, ast.Name) and a.value.id == self.name:
+                new += [copy.deepcopy(e) for e in self.exprs]
+            else:
+                new.append(a)
+        node.args = new
+        return node
+
+
 class Inliner:
     def __init__(self, helpers: Dict[str, Helper], by_name: Dict[str, List[Helper]]):
         self.helpers = helpers
@@ -286,7 +310,7 @@ class Inliner:
             if d is not None:
                 defaults[a.arg] = d
         bound: Dict[str, ast.AST] = {}
-        if any(isinstance(a, ast.Starred) for a in call.args) or any(k.arg is None for k in call.keywords):
+        if any(isinstance(a, ast.Starred) for a in call.args) or any(k.arg is None for k in call.keywords) or hn.args.vararg:
             return None
         if h.kind in ("method", "classmethod") and h.cls is not None:
             if recv is None:
@@ -430,8 +454,12 @@ class Inliner:
                 return None
             bound[pos[0]] = recv
             pos = pos[1:]
+        va = hn.args.vararg.arg if hn.args.vararg else None
+        extra: List[ast.AST] = []
         if len(args) > len(pos):
-            return None
+            if va is None:
+                return None
+            extra = args[len(pos):]
         for p, a in zip(pos, args):
             bound[p] = a
         for k in call.keywords:
@@ -445,6 +473,13 @@ class Inliner:
                 else:
                     return None
         body = copy.deepcopy(_strip_doc(hn.body))
+        if va is not None:
+            if not all(_simple(x) for x in extra):
+                self.skipped.append((qual, h.qual, "non-trivial expressions passed through *args"))
+                return None
+            if _names_in(ast.Tuple(elts=list(extra), ctx=ast.Load())) & _stored_names(body):
+                return None
+            body = [_SplatArgs(va, extra).visit(b) for b in body]
         stored = _stored_names(body)
         caller_names = _names_in(fn)
         self.counter += 1
